@@ -11,6 +11,8 @@ from . import common as C
 PROPS = {
     'C01': 'vf.p_c01', 'C02': 'vf.p_c02', 'C06': 'vf.p_c06', 'C19': 'vf.p_c19',
     'C04': 'vf.p_c04', 'C10': 'vf.p_c10', 'C11': 'vf.p_c11',
+    'C03': 'vf.p_c03', 'C05': 'vf.p_c05', 'C07': 'vf.p_c07',
+    'C13': 'vf.p_c13', 'C14': 'vf.p_c14', 'C15': 'vf.p_c15',
 }
 
 
@@ -28,6 +30,9 @@ def main():
         print('unknown property %s (claimed: %s)' % (a.prop, ', '.join(sorted(PROPS))), file=sys.stderr)
         sys.exit(2)
     mod = importlib.import_module(PROPS[a.prop])
+    import glob
+    for p in glob.glob(os.path.join(C.REPLAYS, a.prop + '-*.json')):
+        os.remove(p)                     # replay files belong to one run
     t0 = time.time()
     try:
         rc = mod.run(tier)
